@@ -139,6 +139,19 @@ def run(chk):
             hist["mixed-precision"] = hist.get("mixed-precision", 0) + 1
             if smx.shape != wantmx.shape or float(np.max(np.abs(smx.astype(np.float64) - wantmx))) > 1e-10:
                 oracle_bad.append(dict(infomx, op="mean + L z (float32 z, float64 factor)", expected=wantmx.tolist(), observed=smx.tolist()))
+        # the numpyro distribution view of the same process draws the same numbers (same key, same shape)
+        try:
+            gnp = GaussianProcess(_qs.Matern32(jnp.asarray(1.3), jnp.asarray(0.9)), jnp.asarray(np.linspace(0.0, 4.0, 6)), diag=jnp.asarray(0.2), mean=0.4, solver=scls_)
+            dist = gnp.numpyro_dist()
+            for shp in ((), (3,), (2, 2)):
+                hist["numpyro"] = hist.get("numpyro", 0) + 1
+                a_ = np.asarray(dist.sample(jax.random.PRNGKey(9), shp))
+                b_ = np.asarray(gnp.sample(jax.random.PRNGKey(9), shp))
+                if a_.shape != b_.shape or not np.array_equal(a_, b_):
+                    oracle_bad.append(dict(op="numpyro_dist().sample vs GaussianProcess.sample (same key and shape)", solver=sname_, shape=str(shp),
+                                           expected=b_.tolist(), observed=a_.tolist()))
+        except ImportError:
+            pass
         # integer-valued right-hand sides: the triangular product / solve act on their values (no truncation to the argument's dtype)
         gint = GaussianProcess(_qs.Matern32(jnp.asarray(1.3), jnp.asarray(0.9)), jnp.asarray(np.linspace(0.0, 4.0, 6)), diag=jnp.asarray(0.2), solver=scls_)
         for vint in (np.arange(1, 7), np.arange(12).reshape(6, 2) - 5, np.arange(1, 7, dtype=np.int32)):
